@@ -19,7 +19,9 @@
          It does not refer to [serve].
     [check_stats] (not fatal, reported in the evidence): exact agreement of status /
     gRPC code / hit count with the model ("C12 drift") and whether [v_prop] was
-    vacuous on the case because a hypothesis of the theorems does not hold. *)
+    vacuous on the case because a hypothesis of the theorems does not hold, and on
+    which cases (a 1xx/2xx status override in force) not even the projection was
+    compared, so that only the upstream hit bound was checked. *)
 From HV Require Export Base.Prelude Base.ErrChain C12.Model C12.Proofs C01.Model C01.Proofs.
 Local Open Scope Z_scope.
 
@@ -81,10 +83,13 @@ Definition proj_match (en : entry) (c : config) (m : answer) (o : oans) : bool :
 (** the projection "success status or not" presupposes that the configured error
     statuses are not success statuses themselves: with a 1xx/2xx override in force
     the comparison is left to the (non-fatal) exact statistics *)
-Definition corr (k : case) : bool :=
+Definition corr_skipped (k : case) : bool :=
   negb (forallb (fun z => negb (success_like z))
           [ov_authn (c_respond (k_cfg k)); ov_authz (c_respond (k_cfg k)); ov_comm (c_respond (k_cfg k));
-           ov_precond (c_respond (k_cfg k)); ov_norule (c_respond (k_cfg k)); ov_internal (c_respond (k_cfg k))]) ||
+           ov_precond (c_respond (k_cfg k)); ov_norule (c_respond (k_cfg k)); ov_internal (c_respond (k_cfg k))]).
+
+Definition corr (k : case) : bool :=
+  corr_skipped k ||
   proj_match Decision (k_cfg k) (serve Decision (k_cfg k) (k_l k) (k_q k)) (k_dec k) &&
   proj_match Proxy (k_cfg k) (serve Proxy (k_cfg k) (k_l k) (k_q k)) (k_prx k) &&
   proj_match Envoy (k_cfg k) (serve Envoy (k_cfg k) (k_l k) (k_q k)) (k_env k).
@@ -205,7 +210,7 @@ Definition check (k : case) : verdict :=
 Definition check_stats (k : case) : verdict :=
   {| v_corr := corr_exact k;
      v_prop := hyps_b Decision k && hyps_b Proxy k && hyps_b Envoy k;
-     v_guards := [] |}.
+     v_guards := guards [(7, corr_skipped k)] |}.   (* 7 = neither projection nor property compared: only the hit bound *)
 
 (* constructors with short names for the generated case files *)
 Definition mkresp v a z m p n i :=
